@@ -504,6 +504,16 @@ func (root *Root) SDL(full bool, desc ...bool) string {
 		}
 	}
 	for _, t := range root.types.list {
+		if _, isTime := t.(*timeScalar); (isTime || (t.Core() && t.Rank() == rankScalar)) && 0 < len(t.Directives()) {
+			// A built in scalar is in every root and a definition of it in
+			// a document is skipped, the directives a document put on it
+			// can only be said with an extension.
+			b.WriteString("\nextend scalar ")
+			b.WriteString(t.Name())
+			_ = writeDirectiveUses(&b, t.Directives())
+			b.Write([]byte{'\n'})
+			continue
+		}
 		if full || !t.Core() {
 			b.Write([]byte{'\n'})
 			b.WriteString(t.SDL(desc...))
